@@ -95,6 +95,15 @@ CLAIMED["C07"] = dict(
         "SortedFileNeedleMap.Delete reuse the same search and are not separately specified. " + TRUST,
    design="DESIGN.md §4 C07")
 
+CLAIMED["C37"] = dict(
+   text="Proof-level kernel: Volume.BinarySearchByAppendAtNs over a ghost index with non-decreasing append timestamps (inductive invariant): 'nothing newer' "
+        "is reported only if no entry is newer than the given timestamp, otherwise the returned entry is the first newer one; sendFileContent reads "
+        "consecutive blocks exactly one buffer apart starting at the start offset and reaches the stop offset on success (loop invariant over the read "
+        "offsets); the index rebuild step puts records with a positive size and deletes every other key, one call each.",
+   note="The three index/record readers used by the search are assumed (ghost functions idxEntries/idxNs); the RPC stream, local compaction and the history "
+        "argument (backup converges after any sequence of runs) are not decided here. " + TRUST,
+   design="DESIGN.md §4 C37")
+
 NA = {
  "C03":"crash-point property over byte-level truncation of two persistent files; no per-function contract within reach decides it (DESIGN §4 C03)",
  "C10":"needs inductive tree predicates and cardinality reasoning over interface-typed nodes in pointer maps with randomised picking (DESIGN §4 C10)",
